@@ -9,6 +9,7 @@ python3 tools/translate.py
 for t in tools/translate_c*.py; do
   case "$t" in
     tools/translate_c16.py) python3 "$t" --tables-only || true ;;   # certificates need the driver: second pass below
+    tools/translate_c16g.py|tools/translate_c17g.py) ;;                 # need the driver's operation lists: run below
     *) python3 "$t" || true ;;
   esac
 done
@@ -27,6 +28,9 @@ PY
 # the driver must build; a theorem module that fails to build is reported by its own check, not here
 (cd lean && lake build moyo_model)
 [ -f tools/translate_c16.py ] && (python3 tools/translate_c16.py || true)
+# certificates of the type-inequivalence theorems (Props/C16Types.lean, Props/C17Types.lean)
+[ -f tools/translate_c16g.py ] && (python3 tools/translate_c16g.py || true)
+[ -f tools/translate_c17g.py ] && (python3 tools/translate_c17g.py || true)
 (cd lean && lake build $TARGETS) || echo "setup: some theorem modules failed to build (their checks will report it)"
 (cd harness && cargo build)
 echo "setup ok"
